@@ -207,6 +207,9 @@ func (tbls *TBLS) KeyGen(ctx context.Context) ([]byte, error) {
 	// We then distribute the polynomial evaluations (shares) to all parties.
 	// Each party 'i' gets P(i).
 	tbls.shareDistribution(ctx, shares)
+	if err := ctx.Err(); err != nil {
+		return nil, fmt.Errorf("did not receive shares from all parties: %w", err)
+	}
 
 	// Having received all shares, we combine all shares received from all parties by adding them.
 	// Now, the private key of each party 'i' is defined to be:
@@ -218,9 +221,16 @@ func (tbls *TBLS) KeyGen(ctx context.Context) ([]byte, error) {
 	// Instead, we commit to it and send our commitment to everyone,
 	// and wait for commitments from everyone else.
 	tbls.commitPhase(ctx, pk)
+	if err := ctx.Err(); err != nil {
+		return nil, fmt.Errorf("did not receive commitments from all parties: %w", err)
+	}
 
 	// Now we de-commit, and wait for everyone else to de-commit thus revealing their public key.
 	tbls.revealPhase(ctx, pk)
+	if err := ctx.Err(); err != nil {
+		return nil, fmt.Errorf("did not receive public keys from all parties: %w", err)
+	}
+
 	// Next, we ensure the commitments we received match the de-commitments
 	if err := tbls.validateCommitments(); err != nil {
 		return nil, err
